@@ -137,8 +137,11 @@ func modelTx(op *Op, before dbState, rowids bool) *txModel {
 			if tname != "" {
 				m.addressed[tname] = true
 			}
-			if !plain {
+			if tname == "" {
 				m.add("table:adv")
+				m.documented = false
+			} else if !plain {
+				m.add("table:lenient")
 				m.documented = false
 			} else if tname != "items" {
 				m.add("table:other")
@@ -163,8 +166,14 @@ func modelTx(op *Op, before dbState, rowids bool) *txModel {
 						// the whole value is a reference: it is replaced by the
 						// symbol's value, whatever its type
 						name := strings.TrimSuffix(strings.TrimPrefix(s, "{{"), "}}")
-						if val, found := dictVal[name]; found {
+						if val, found := dictVal[name]; found && !poisoned {
 							x = val
+						} else if poisoned {
+							// the dictionary holds values the model could not
+							// follow (e.g. a select that matched several rows)
+							unknownRef = true
+							m.add("symbols:adv")
+							m.documented = false
 						} else {
 							mark("symbols:unresolved")
 						}
